@@ -46,6 +46,84 @@ func isPtrToNonIface(t types.Type) bool {
 func newNilAnalysis(e *e3) *nilAnalysis {
 	na := &nilAnalysis{e: e, nilable: map[string]string{}, nonNilFields: map[string]string{}, mayNilRet: map[*ssa.Function]map[int]string{}, paramMemo: map[*ssa.Parameter]string{}}
 	p := e.p
+	// 0. optional fields of library structs: the repository itself tests the field against nil somewhere AND
+	//    creates values of the struct without setting it (so nil instances are produced by repository code,
+	//    not only by an input document whose shape is validated at start-up)
+	libTested := map[string]string{}
+	libPartial := map[string]string{}
+	for _, fn := range p.allRepoFuncs() {
+		for _, b := range fn.Blocks {
+			for _, in := range b.Instrs {
+				switch x := in.(type) {
+				case *ssa.BinOp:
+					if x.Op != token.EQL && x.Op != token.NEQ {
+						continue
+					}
+					var v ssa.Value
+					if isNilConst(x.Y) {
+						v = x.X
+					} else if isNilConst(x.X) {
+						v = x.Y
+					}
+					if v == nil || !isPtrToNonIface(v.Type()) {
+						continue
+					}
+					if f, ok := loadedField(v); ok && !isRepoFieldName(f) {
+						if _, dup := libTested[f]; !dup {
+							libTested[f] = "tested against nil at " + p.pos(x.Pos())
+						}
+					}
+				case *ssa.Alloc:
+					pt, ok := x.Type().Underlying().(*types.Pointer)
+					if !ok {
+						continue
+					}
+					named, ok := pt.Elem().(*types.Named)
+					if !ok || named.Obj().Pkg() == nil || strings.HasPrefix(named.Obj().Pkg().Path(), modPath) {
+						continue
+					}
+					st, ok := named.Underlying().(*types.Struct)
+					if !ok || x.Referrers() == nil {
+						continue
+					}
+					stored := map[int]bool{}
+					whole := false
+					for _, ref := range *x.Referrers() {
+						switch r := ref.(type) {
+						case *ssa.FieldAddr:
+							if r.Referrers() != nil {
+								for _, rr := range *r.Referrers() {
+									if s, ok := rr.(*ssa.Store); ok && s.Addr == r {
+										stored[r.Field] = true
+									}
+								}
+							}
+						case *ssa.Store:
+							if r.Addr == x {
+								whole = true // a complete value is copied in
+							}
+						}
+					}
+					if whole {
+						continue
+					}
+					for i := 0; i < st.NumFields(); i++ {
+						if !stored[i] && isPtrToNonIface(st.Field(i).Type()) {
+							f := structFieldOf(x.Type(), i)
+							if _, dup := libPartial[f]; !dup {
+								libPartial[f] = "a " + named.Obj().Name() + " is created without it at " + p.pos(x.Pos())
+							}
+						}
+					}
+				}
+			}
+		}
+	}
+	for f, t := range libTested {
+		if c, ok := libPartial[f]; ok {
+			na.nilable[f] = t + "; " + c
+		}
+	}
 	// 1. fields compared with nil, or stored nil, anywhere in the repository
 	for _, fn := range p.allRepoFuncs() {
 		for _, b := range fn.Blocks {
@@ -354,7 +432,7 @@ func (na *nilAnalysis) provedNonNil(p ssa.Value, at *ssa.BasicBlock, use ssa.Ins
 		for _, c := range set {
 			if na.condImpliesNonNil(c, p, key) {
 				// a store to the same field between the test and the use invalidates a key-based match
-				if isFld && c.V != nil && na.storeBetween(f, fld, c.At, at) {
+				if isFld && c.V != nil && na.storeBetween(f, fld, c.At, at, use, p) {
 					continue
 				}
 				ok = true
@@ -398,7 +476,14 @@ func (na *nilAnalysis) provedNonNil(p ssa.Value, at *ssa.BasicBlock, use ssa.Ins
 
 // storeBetween: some store to the field can execute after the test in block
 // `from` and before reaching `to`, on a path that does not re-evaluate the test.
-func (na *nilAnalysis) storeBetween(f *funcFacts, fld string, from, to *ssa.BasicBlock) bool {
+func (na *nilAnalysis) storeBetween(f *funcFacts, fld string, from, to *ssa.BasicBlock, use ssa.Instruction, p ssa.Value) bool {
+	// the object whose field was tested (when it is a local variable)
+	var testedObj ssa.Value
+	if u, ok := p.(*ssa.UnOp); ok {
+		if fa, ok := u.X.(*ssa.FieldAddr); ok {
+			testedObj = fa.X
+		}
+	}
 	reach := func(a, b *ssa.BasicBlock) bool { // a ->* b avoiding `from`
 		if a == b {
 			return true
@@ -431,6 +516,18 @@ func (na *nilAnalysis) storeBetween(f *funcFacts, fld string, from, to *ssa.Basi
 			}
 			g, ok := fieldOfAddr(st.Addr)
 			if !ok || g != fld {
+				continue
+			}
+			// a store into a local variable of this function that is not the tested object cannot change the tested field
+			if fa, ok := st.Addr.(*ssa.FieldAddr); ok {
+				if al, isAlloc := fa.X.(*ssa.Alloc); isAlloc && testedObj != ssa.Value(al) {
+					if _, testedIsAlloc := testedObj.(*ssa.Alloc); testedIsAlloc || !al.Heap || !escapesBeforeUse(al, st) {
+						continue
+					}
+				}
+			}
+			// in the block of the use only the stores in front of the use matter (later ones are followed by the test again)
+			if b == to && use != nil && instrIndex(st) > instrIndex(use) {
 				continue
 			}
 			for _, s := range from.Succs {
@@ -637,4 +734,25 @@ func (e *e3) classD(rule string, fns []*ssa.Function) {
 			}
 		}
 	}
+}
+
+// escapesBeforeUse: conservative: a heap-allocated local counts as possibly aliased as soon as its address
+// is stored, passed to a call or returned anywhere in the function.
+func escapesBeforeUse(al *ssa.Alloc, _ ssa.Instruction) bool {
+	if al.Referrers() == nil {
+		return false
+	}
+	for _, ref := range *al.Referrers() {
+		switch r := ref.(type) {
+		case *ssa.FieldAddr, *ssa.IndexAddr:
+		case *ssa.UnOp:
+		case *ssa.Store:
+			if r.Val == ssa.Value(al) {
+				return true
+			}
+		default:
+			return true
+		}
+	}
+	return false
 }
